@@ -21,13 +21,14 @@ var errDeadline = errors.New("i/o timeout (deadline exceeded)")
 // (one Read never returns bytes of two segments); with nothing to deliver Read
 // blocks until Close or the read deadline, like a TCP socket.
 type tConn struct {
-	segs     chan []byte
-	left     []byte
-	out      []byte
-	closed   chan struct{}
-	isClosed bool
-	deadline time.Time
-	eofAfter bool // peer closes after the last segment
+	segs      chan []byte
+	left      []byte
+	out       []byte
+	closed    chan struct{}
+	isClosed  bool
+	deadline  time.Time // read deadline
+	wdeadline time.Time
+	eofAfter  bool // peer closes after the last segment
 }
 
 func newTConn(segments [][]byte, eofAfter bool) *tConn {
@@ -76,6 +77,9 @@ func (c *tConn) Write(p []byte) (int, error) {
 	if c.isClosed {
 		return 0, net.ErrClosed
 	}
+	if !c.wdeadline.IsZero() && time.Until(c.wdeadline) <= 0 {
+		return 0, errDeadline
+	}
 	c.out = append(c.out, p...)
 	return len(p), nil
 }
@@ -89,9 +93,9 @@ func (c *tConn) Close() error {
 }
 func (c *tConn) LocalAddr() net.Addr                { return tAddr{} }
 func (c *tConn) RemoteAddr() net.Addr               { return tAddr{} }
-func (c *tConn) SetDeadline(t time.Time) error      { c.deadline = t; return nil }
+func (c *tConn) SetDeadline(t time.Time) error      { c.deadline, c.wdeadline = t, t; return nil }
 func (c *tConn) SetReadDeadline(t time.Time) error  { c.deadline = t; return nil }
-func (c *tConn) SetWriteDeadline(t time.Time) error { return nil }
+func (c *tConn) SetWriteDeadline(t time.Time) error { c.wdeadline = t; return nil }
 
 var c15Conn *tConn
 
@@ -266,5 +270,68 @@ func H_c15_deadline() {
 	elapsed := time.Since(start)
 	symAssert(elapsed <= D+500*time.Millisecond, "dial-returns-no-later-than-its-deadline")
 	symAssert(err != nil && conn == nil, "failed-login-returns-an-error")
+	symReach("end")
+}
+
+// C15 K4: the connection handed over by a successful dial is not bound by the
+// dial deadline any more: bytes written and bytes arriving after that instant
+// still get through.
+func H_c15_after_deadline() {
+	payload := symBytes(symInt(1, symParam("P", 2)))
+	const D = time.Second
+	ctx, cancel := context.WithTimeout(context.Background(), D)
+	defer cancel()
+	login := []byte("Callsign :\rPassword :\r")
+	var conn net.Conn
+	var err error
+	var sent []byte
+	if symEngine() {
+		c15Conn = newTConn([][]byte{login}, false)
+		conn, err = DialContext(ctx, "verif:1", "N0CALL", "pw")
+	} else {
+		ln, lerr := net.Listen("tcp", "127.0.0.1:0")
+		if lerr != nil {
+			panic(lerr)
+		}
+		go func() {
+			c, aerr := ln.Accept()
+			ln.Close()
+			if aerr != nil {
+				return
+			}
+			go func() {
+				buf := make([]byte, 256)
+				for {
+					n, rerr := c.Read(buf)
+					sent = append(sent, buf[:n]...)
+					if rerr != nil {
+						return
+					}
+				}
+			}()
+			c.Write(login)
+			time.Sleep(D + 900*time.Millisecond)
+			c.Write(payload)
+			time.Sleep(300 * time.Millisecond)
+			c.Close()
+		}()
+		conn, err = DialContext(ctx, ln.Addr().String(), "N0CALL", "pw")
+	}
+	symAssert(err == nil && conn != nil, "login-ok")
+	time.Sleep(D + 500*time.Millisecond) // the dial deadline is in the past now
+	n, werr := conn.Write(payload)
+	symAssert(werr == nil && n == len(payload), "write-after-the-dial-deadline-succeeds")
+	if symEngine() {
+		c15Conn.segs <- payload // late data from the server, then it closes
+		close(c15Conn.segs)
+	}
+	got, rerr := io.ReadAll(conn)
+	symAssert((rerr == nil || rerr == io.EOF) && bytes.Equal(got, payload), "bytes-arriving-after-the-dial-deadline-are-delivered")
+	if symEngine() {
+		sent = c15Conn.out
+	} else {
+		time.Sleep(100 * time.Millisecond)
+	}
+	symAssert(string(sent) == "N0CALL\rpw\r"+string(payload), "every-byte-sent-after-login-arrives-unmodified-and-complete")
 	symReach("end")
 }
